@@ -100,7 +100,8 @@ def text_state():
     # the cursor into the format text is widened to "any position the verified invariants allow"; for a parser over arbitrary text
     # every such position is reachable (all-literal text in front of it), so a model over the cursor's symbol is a witness.  Widened
     # integers (indices, counters) are not exempt.
-    st.flags['allow-abstract-witness'] = re.compile(r'\bwo#\d+')
+    # (no exemption is needed: the text is entered at an arbitrary position c0, so a model pinned to the first iteration of the
+    # abstracted loops already describes an arbitrary cursor position)
     w.cells[8] = (8, PtrV('FMT', Lin.atom('c0')))
     w.lazy = True
     st.objs['W'] = w
